@@ -460,6 +460,9 @@ def main(run):
     run.notes.update({"stages": stages, "injected": tagc, "observations": kinds, "audit_channels": chan, "corpus_cases": sum(1 for c in cases if c["src"] != "gen")})
     import t04_text   # extra stage (extension T04): the metadata TEXT block against MetaText.v, byte for byte
     t04_text.run_text_stage(run, n=(30 if run.tier == "quick" else 400))
+    with run.in_stage("T09"):   # extra stage (extension T09): SHA-256 inside the model (Sha256.v) against hashlib and the implementation
+        import t09_text
+        t09_text.run_stage(run, n=(25 if run.tier == "quick" else 300))
     return run.finish(info)
 
 
